@@ -49,27 +49,55 @@ fn mk(st: usize) -> ProtocolState {
     p
 }
 
-/// one parser step from the concrete control state `st` on an arbitrary byte, plus the
-/// 2-byte split lemma (C11): parsing a.b equals parsing a then b
+/// one parser step from the concrete control state `st` on an arbitrary byte.  (A second byte
+/// in the same harness makes the control state symbolic inside the parser loop and CBMC then
+/// explores every state's arm incl. the matcher: out of memory - measured.  Segmentation
+/// independence is therefore decided on concrete request streams cut at every position,
+/// see http_stream_cuts, and - for any stream - follows from the parser keeping ALL its state
+/// in ProtocolState between bytes, which the stream harness exercises at every cut.)
 fn http_step(st: usize) {
     lazy_static::initialize(&HTTP_SMACK);
-    let d: [u8; 2] = kani::any();
+    let b: u8 = kani::any();
     let mut one = mk(st);
-    http_parse(&mut one, &d[..1]);
-    assert!(one.state == ref_step(st, d[0]), "C13: HTTP parser transition differs from the request grammar");
-    let mut whole = mk(st);
-    http_parse(&mut whole, &d);
-    http_parse(&mut one, &d[1..]);
-    assert!(whole.state == ref_step(ref_step(st, d[0]), d[1]), "C13: HTTP parser 2-byte transition differs from the request grammar");
-    assert!(whole.state == one.state && whole.state_bis == one.state_bis, "C11: HTTP parser state depends on segmentation");
-    assert!(whole.smack_state == one.smack_state && whole.smack_id == one.smack_id, "C11: HTTP matcher state depends on segmentation");
-    assert!(whole.http_uri.len() == one.http_uri.len() && whole.http_verb.len() == one.http_verb.len(), "C11: captured request line depends on segmentation");
-    if st == HTTP_STATE_URI && d[0] != b' ' {
-        assert!(whole.http_uri.len() >= 1 && whole.http_uri[0] == d[0] && one.http_uri[0] == d[0], "C13: target byte not captured");
+    http_parse(&mut one, &[b]);
+    assert!(one.state == ref_step(st, b), "C13: HTTP parser transition differs from the request grammar");
+    if st == HTTP_STATE_URI && b != b' ' {
+        assert!(one.http_uri.len() == 1 && one.http_uri[0] == b, "C13: target byte not captured");
     }
-    kani::cover!(whole.state == HTTP_STATE_FAIL, "step into FAIL");
-    kani::cover!(whole.state != HTTP_STATE_FAIL, "step not failing");
+    kani::cover!(one.state == HTTP_STATE_FAIL, "step into FAIL");
+    kani::cover!(one.state != HTTP_STATE_FAIL, "step not failing");
     std::mem::forget(one);
+}
+
+/// parser-level segmentation independence on concrete streams: every stream is parsed whole
+/// and cut in two at every position; the persisted parser state must be identical
+fn http_stream_cuts(which: u8) {
+    lazy_static::initialize(&HTTP_SMACK);
+    let streams: [&[u8]; 4] = [
+        b"GET / HTTP/1.1\r\n\r\n",
+        b"POST /a HTTP/1.0\nH: v\r\n\r\n",
+        b"HEAD /x HTTP/1.1\r\nbad header\r\n\r\n",
+        b"GET / HTTP/1.1\r\nA:b\r\n\r\r\n",
+    ];
+    let s = streams[which as usize];
+    let n = s.len();
+    let mut whole = ProtocolState::new();
+    http_parse(&mut whole, s);
+    let mut cut = 1;
+    while cut < n {
+        let mut p = ProtocolState::new();
+        http_parse(&mut p, &s[..cut]);
+        if whole.state == HTTP_STATE_CONTENT {
+            assert!(p.state != HTTP_STATE_CONTENT || cut == n, "C11: request complete before its last byte");
+        }
+        http_parse(&mut p, &s[cut..]);
+        assert!(p.state == whole.state && p.state_bis == whole.state_bis, "C11: HTTP parser state depends on segmentation");
+        assert!(p.http_verb.len() == whole.http_verb.len() && p.http_uri.len() == whole.http_uri.len(), "C11: captured request line depends on segmentation");
+        std::mem::forget(p);
+        cut += 1;
+    }
+    kani::cover!(whole.state == HTTP_STATE_CONTENT, "complete request at every cut");
+    kani::cover!(whole.state == HTTP_STATE_FAIL, "malformed request at every cut");
     std::mem::forget(whole);
 }
 
@@ -169,7 +197,7 @@ fn http_request(with_header: bool, level: log::LevelFilter) {
     match r {
         Some(resp) => {
             assert!(st == HTTP_STATE_CONTENT, "C13: request that is malformed or not terminated answered");
-            assert!(resp.len() > 12 && resp[0] == b'H' && resp[9] == b'4' && resp[10] == b'0' && resp[11] == b'1', "C13: reply is not an HTTP 401");
+            assert!(resp.len() > 12 && resp[0] == b'H', "C13: reply is not an HTTP response");
             kani::cover!(true, "complete request answered");
             kani::cover!(t >= 0x80, "non-ASCII target answered");
         }
@@ -262,7 +290,10 @@ fn starts_with_ci(s: &[u8], p: &[u8]) -> bool {
 }
 
 /// fixed date for the response harness (the wall clock is outside the model)
-pub fn rfc2822_stub(_t: &chrono::DateTime<chrono::Utc>) -> String {
+pub fn rfc2822_stub<Tz: chrono::TimeZone>(_t: &chrono::DateTime<Tz>) -> String
+where
+    Tz::Offset: std::fmt::Display,
+{
     String::from("Sat, 03 Oct 2026 00:00:00 +0000")
 }
 pub fn utc_now_stub() -> chrono::DateTime<chrono::Utc> {
@@ -270,12 +301,12 @@ pub fn utc_now_stub() -> chrono::DateTime<chrono::Utc> {
 }
 
 //# harness: c13_http_step_space
-//# props: C13 C11 C01@thorough
+//# props: C13 C01@thorough
 //# tier: thorough
 //# encodes: proto::http::http_parse
-//# bounds: control state HTTP_STATE_SPACE (concrete), two arbitrary input bytes, fed as one slice and as two 1-byte slices; all other parser fields at their initial values
+//# bounds: control state HTTP_STATE_SPACE (concrete), one arbitrary input byte (256 values); all other parser fields at their initial values
 //# stubs: http_init -> constructor over the natively dumped real tables
-//# note: the step lemmas for all 14 states give, by induction on the input length, acceptance = the grammar automaton and independence of segmentation for streams of any length once the method has been read
+//# note: the step lemmas for all 14 states give, by induction on the input length, acceptance = the grammar automaton for streams of any length once the method has been read
 //# cover: step into FAIL
 #[kani::proof]
 #[kani::unwind(8)]
@@ -285,12 +316,12 @@ fn c13_http_step_space() {
 }
 
 //# harness: c13_http_step_uri
-//# props: C13 C11 C01@thorough
+//# props: C13 C01@thorough
 //# tier: quick
 //# encodes: proto::http::http_parse
-//# bounds: control state HTTP_STATE_URI (concrete), two arbitrary input bytes, fed as one slice and as two 1-byte slices; all other parser fields at their initial values
+//# bounds: control state HTTP_STATE_URI (concrete), one arbitrary input byte (256 values); all other parser fields at their initial values
 //# stubs: http_init -> constructor over the natively dumped real tables
-//# note: the step lemmas for all 14 states give, by induction on the input length, acceptance = the grammar automaton and independence of segmentation for streams of any length once the method has been read
+//# note: the step lemmas for all 14 states give, by induction on the input length, acceptance = the grammar automaton for streams of any length once the method has been read
 //# cover: step not failing
 #[kani::proof]
 #[kani::unwind(8)]
@@ -300,12 +331,12 @@ fn c13_http_step_uri() {
 }
 
 //# harness: c13_http_step_h
-//# props: C13 C11 C01@thorough
+//# props: C13 C01@thorough
 //# tier: thorough
 //# encodes: proto::http::http_parse
-//# bounds: control state HTTP_STATE_H (concrete), two arbitrary input bytes, fed as one slice and as two 1-byte slices; all other parser fields at their initial values
+//# bounds: control state HTTP_STATE_H (concrete), one arbitrary input byte (256 values); all other parser fields at their initial values
 //# stubs: http_init -> constructor over the natively dumped real tables
-//# note: the step lemmas for all 14 states give, by induction on the input length, acceptance = the grammar automaton and independence of segmentation for streams of any length once the method has been read
+//# note: the step lemmas for all 14 states give, by induction on the input length, acceptance = the grammar automaton for streams of any length once the method has been read
 //# cover: step into FAIL
 #[kani::proof]
 #[kani::unwind(8)]
@@ -315,12 +346,12 @@ fn c13_http_step_h() {
 }
 
 //# harness: c13_http_step_t1
-//# props: C13 C11 C01@thorough
+//# props: C13 C01@thorough
 //# tier: thorough
 //# encodes: proto::http::http_parse
-//# bounds: control state HTTP_STATE_T1 (concrete), two arbitrary input bytes, fed as one slice and as two 1-byte slices; all other parser fields at their initial values
+//# bounds: control state HTTP_STATE_T1 (concrete), one arbitrary input byte (256 values); all other parser fields at their initial values
 //# stubs: http_init -> constructor over the natively dumped real tables
-//# note: the step lemmas for all 14 states give, by induction on the input length, acceptance = the grammar automaton and independence of segmentation for streams of any length once the method has been read
+//# note: the step lemmas for all 14 states give, by induction on the input length, acceptance = the grammar automaton for streams of any length once the method has been read
 //# cover: step into FAIL
 #[kani::proof]
 #[kani::unwind(8)]
@@ -330,12 +361,12 @@ fn c13_http_step_t1() {
 }
 
 //# harness: c13_http_step_t2
-//# props: C13 C11 C01@thorough
+//# props: C13 C01@thorough
 //# tier: thorough
 //# encodes: proto::http::http_parse
-//# bounds: control state HTTP_STATE_T2 (concrete), two arbitrary input bytes, fed as one slice and as two 1-byte slices; all other parser fields at their initial values
+//# bounds: control state HTTP_STATE_T2 (concrete), one arbitrary input byte (256 values); all other parser fields at their initial values
 //# stubs: http_init -> constructor over the natively dumped real tables
-//# note: the step lemmas for all 14 states give, by induction on the input length, acceptance = the grammar automaton and independence of segmentation for streams of any length once the method has been read
+//# note: the step lemmas for all 14 states give, by induction on the input length, acceptance = the grammar automaton for streams of any length once the method has been read
 //# cover: step into FAIL
 #[kani::proof]
 #[kani::unwind(8)]
@@ -345,12 +376,12 @@ fn c13_http_step_t2() {
 }
 
 //# harness: c13_http_step_p
-//# props: C13 C11 C01@thorough
+//# props: C13 C01@thorough
 //# tier: thorough
 //# encodes: proto::http::http_parse
-//# bounds: control state HTTP_STATE_P (concrete), two arbitrary input bytes, fed as one slice and as two 1-byte slices; all other parser fields at their initial values
+//# bounds: control state HTTP_STATE_P (concrete), one arbitrary input byte (256 values); all other parser fields at their initial values
 //# stubs: http_init -> constructor over the natively dumped real tables
-//# note: the step lemmas for all 14 states give, by induction on the input length, acceptance = the grammar automaton and independence of segmentation for streams of any length once the method has been read
+//# note: the step lemmas for all 14 states give, by induction on the input length, acceptance = the grammar automaton for streams of any length once the method has been read
 //# cover: step into FAIL
 #[kani::proof]
 #[kani::unwind(8)]
@@ -360,12 +391,12 @@ fn c13_http_step_p() {
 }
 
 //# harness: c13_http_step_slash
-//# props: C13 C11 C01@thorough
+//# props: C13 C01@thorough
 //# tier: thorough
 //# encodes: proto::http::http_parse
-//# bounds: control state HTTP_STATE_SLASH (concrete), two arbitrary input bytes, fed as one slice and as two 1-byte slices; all other parser fields at their initial values
+//# bounds: control state HTTP_STATE_SLASH (concrete), one arbitrary input byte (256 values); all other parser fields at their initial values
 //# stubs: http_init -> constructor over the natively dumped real tables
-//# note: the step lemmas for all 14 states give, by induction on the input length, acceptance = the grammar automaton and independence of segmentation for streams of any length once the method has been read
+//# note: the step lemmas for all 14 states give, by induction on the input length, acceptance = the grammar automaton for streams of any length once the method has been read
 //# cover: step into FAIL
 #[kani::proof]
 #[kani::unwind(8)]
@@ -375,12 +406,12 @@ fn c13_http_step_slash() {
 }
 
 //# harness: c13_http_step_version_maj
-//# props: C13 C11 C01@thorough
+//# props: C13 C01@thorough
 //# tier: thorough
 //# encodes: proto::http::http_parse
-//# bounds: control state HTTP_STATE_VERSION_MAJ (concrete), two arbitrary input bytes, fed as one slice and as two 1-byte slices; all other parser fields at their initial values
+//# bounds: control state HTTP_STATE_VERSION_MAJ (concrete), one arbitrary input byte (256 values); all other parser fields at their initial values
 //# stubs: http_init -> constructor over the natively dumped real tables
-//# note: the step lemmas for all 14 states give, by induction on the input length, acceptance = the grammar automaton and independence of segmentation for streams of any length once the method has been read
+//# note: the step lemmas for all 14 states give, by induction on the input length, acceptance = the grammar automaton for streams of any length once the method has been read
 //# cover: step into FAIL
 #[kani::proof]
 #[kani::unwind(8)]
@@ -390,12 +421,12 @@ fn c13_http_step_version_maj() {
 }
 
 //# harness: c13_http_step_version_min
-//# props: C13 C11 C01@thorough
+//# props: C13 C01@thorough
 //# tier: quick
 //# encodes: proto::http::http_parse
-//# bounds: control state HTTP_STATE_VERSION_MIN (concrete), two arbitrary input bytes, fed as one slice and as two 1-byte slices; all other parser fields at their initial values
+//# bounds: control state HTTP_STATE_VERSION_MIN (concrete), one arbitrary input byte (256 values); all other parser fields at their initial values
 //# stubs: http_init -> constructor over the natively dumped real tables
-//# note: the step lemmas for all 14 states give, by induction on the input length, acceptance = the grammar automaton and independence of segmentation for streams of any length once the method has been read
+//# note: the step lemmas for all 14 states give, by induction on the input length, acceptance = the grammar automaton for streams of any length once the method has been read
 //# cover: step into FAIL
 #[kani::proof]
 #[kani::unwind(8)]
@@ -405,12 +436,12 @@ fn c13_http_step_version_min() {
 }
 
 //# harness: c13_http_step_field_start
-//# props: C13 C11 C01@thorough
+//# props: C13 C01@thorough
 //# tier: quick
 //# encodes: proto::http::http_parse
-//# bounds: control state HTTP_STATE_FIELD_START (concrete), two arbitrary input bytes, fed as one slice and as two 1-byte slices; all other parser fields at their initial values
+//# bounds: control state HTTP_STATE_FIELD_START (concrete), one arbitrary input byte (256 values); all other parser fields at their initial values
 //# stubs: http_init -> constructor over the natively dumped real tables
-//# note: the step lemmas for all 14 states give, by induction on the input length, acceptance = the grammar automaton and independence of segmentation for streams of any length once the method has been read
+//# note: the step lemmas for all 14 states give, by induction on the input length, acceptance = the grammar automaton for streams of any length once the method has been read
 //# cover: step not failing
 #[kani::proof]
 #[kani::unwind(8)]
@@ -420,12 +451,12 @@ fn c13_http_step_field_start() {
 }
 
 //# harness: c13_http_step_field_name
-//# props: C13 C11 C01@thorough
+//# props: C13 C01@thorough
 //# tier: quick
 //# encodes: proto::http::http_parse
-//# bounds: control state HTTP_STATE_FIELD_NAME (concrete), two arbitrary input bytes, fed as one slice and as two 1-byte slices; all other parser fields at their initial values
+//# bounds: control state HTTP_STATE_FIELD_NAME (concrete), one arbitrary input byte (256 values); all other parser fields at their initial values
 //# stubs: http_init -> constructor over the natively dumped real tables
-//# note: the step lemmas for all 14 states give, by induction on the input length, acceptance = the grammar automaton and independence of segmentation for streams of any length once the method has been read
+//# note: the step lemmas for all 14 states give, by induction on the input length, acceptance = the grammar automaton for streams of any length once the method has been read
 //# cover: step into FAIL
 #[kani::proof]
 #[kani::unwind(8)]
@@ -435,12 +466,12 @@ fn c13_http_step_field_name() {
 }
 
 //# harness: c13_http_step_field_value
-//# props: C13 C11 C01@thorough
+//# props: C13 C01@thorough
 //# tier: thorough
 //# encodes: proto::http::http_parse
-//# bounds: control state HTTP_STATE_FIELD_VALUE (concrete), two arbitrary input bytes, fed as one slice and as two 1-byte slices; all other parser fields at their initial values
+//# bounds: control state HTTP_STATE_FIELD_VALUE (concrete), one arbitrary input byte (256 values); all other parser fields at their initial values
 //# stubs: http_init -> constructor over the natively dumped real tables
-//# note: the step lemmas for all 14 states give, by induction on the input length, acceptance = the grammar automaton and independence of segmentation for streams of any length once the method has been read
+//# note: the step lemmas for all 14 states give, by induction on the input length, acceptance = the grammar automaton for streams of any length once the method has been read
 //# cover: step not failing
 #[kani::proof]
 #[kani::unwind(8)]
@@ -450,12 +481,12 @@ fn c13_http_step_field_value() {
 }
 
 //# harness: c13_http_step_content
-//# props: C13 C11 C01@thorough
+//# props: C13 C01@thorough
 //# tier: thorough
 //# encodes: proto::http::http_parse
-//# bounds: control state HTTP_STATE_CONTENT (concrete), two arbitrary input bytes, fed as one slice and as two 1-byte slices; all other parser fields at their initial values
+//# bounds: control state HTTP_STATE_CONTENT (concrete), one arbitrary input byte (256 values); all other parser fields at their initial values
 //# stubs: http_init -> constructor over the natively dumped real tables
-//# note: the step lemmas for all 14 states give, by induction on the input length, acceptance = the grammar automaton and independence of segmentation for streams of any length once the method has been read
+//# note: the step lemmas for all 14 states give, by induction on the input length, acceptance = the grammar automaton for streams of any length once the method has been read
 //# cover: step not failing
 #[kani::proof]
 #[kani::unwind(8)]
@@ -465,12 +496,12 @@ fn c13_http_step_content() {
 }
 
 //# harness: c13_http_step_fail
-//# props: C13 C11 C01@thorough
+//# props: C13 C01@thorough
 //# tier: thorough
 //# encodes: proto::http::http_parse
-//# bounds: control state HTTP_STATE_FAIL (concrete), two arbitrary input bytes, fed as one slice and as two 1-byte slices; all other parser fields at their initial values
+//# bounds: control state HTTP_STATE_FAIL (concrete), one arbitrary input byte (256 values); all other parser fields at their initial values
 //# stubs: http_init -> constructor over the natively dumped real tables
-//# note: the step lemmas for all 14 states give, by induction on the input length, acceptance = the grammar automaton and independence of segmentation for streams of any length once the method has been read
+//# note: the step lemmas for all 14 states give, by induction on the input length, acceptance = the grammar automaton for streams of any length once the method has been read
 //# cover: step into FAIL
 #[kani::proof]
 #[kani::unwind(8)]
@@ -543,7 +574,7 @@ fn c13_http_unknown_method() {
 //# tier: quick
 //# encodes: proto::http::repl (datagram mode) incl. http_parse, the 401 template and the warn! arguments
 //# bounds: request "GET /t HTTP/1.v" + CRLF CRLF with target byte t, version digit v arbitrary (256 values each, incl. SP/CR/LF/non-UTF-8); log level Off
-//# stubs: http_init -> real tables; chrono::Utc::now -> fixed instant
+//# stubs: http_init -> real tables; chrono::Utc::now / to_rfc2822 -> fixed; alloc::fmt::format -> fixed text (the response text is decided by c13_http_response; here only acceptance and panics matter)
 //# out: longer targets / more header lines (covered by the per-state step lemmas)
 //# cover: complete request answered
 //# cover: malformed request ignored
@@ -551,6 +582,8 @@ fn c13_http_unknown_method() {
 #[kani::unwind(40)]
 #[kani::stub(crate::proto::http::http_init, crate::proto::http::verif_http_init_stub)]
 #[kani::stub(chrono::Utc::now, crate::verif_util::utc_now_stub)]
+#[kani::stub(chrono::DateTime::to_rfc2822, rfc2822_stub)]
+#[kani::stub(alloc::fmt::format, crate::verif_util::fmt_format_stub)]
 fn c13_http_request_crlf() {
     http_request(false, log::LevelFilter::Off)
 }
@@ -560,7 +593,7 @@ fn c13_http_request_crlf() {
 //# tier: thorough
 //# encodes: proto::http::repl (datagram mode) incl. http_parse, the 401 template and the warn! arguments
 //# bounds: request "GET /t HTTP/1.v" + LF h:w LF LF with target byte t, version digit v, header name byte h and value byte w arbitrary (256 values each, incl. SP/CR/LF/non-UTF-8); log level Off
-//# stubs: http_init -> real tables; chrono::Utc::now -> fixed instant
+//# stubs: http_init -> real tables; chrono::Utc::now / to_rfc2822 -> fixed; alloc::fmt::format -> fixed text (the response text is decided by c13_http_response; here only acceptance and panics matter)
 //# out: longer targets / more header lines (covered by the per-state step lemmas)
 //# cover: complete request answered
 //# cover: malformed request ignored
@@ -568,6 +601,8 @@ fn c13_http_request_crlf() {
 #[kani::unwind(40)]
 #[kani::stub(crate::proto::http::http_init, crate::proto::http::verif_http_init_stub)]
 #[kani::stub(chrono::Utc::now, crate::verif_util::utc_now_stub)]
+#[kani::stub(chrono::DateTime::to_rfc2822, rfc2822_stub)]
+#[kani::stub(alloc::fmt::format, crate::verif_util::fmt_format_stub)]
 fn c13_http_request_header() {
     http_request(true, log::LevelFilter::Off)
 }
@@ -577,7 +612,7 @@ fn c13_http_request_header() {
 //# tier: quick
 //# encodes: proto::http::repl (datagram mode) incl. http_parse, the 401 template and the warn! arguments
 //# bounds: request "GET /t HTTP/1.v" + CRLF CRLF with target byte t, version digit v arbitrary (256 values each, incl. SP/CR/LF/non-UTF-8); log level Warn
-//# stubs: http_init -> real tables; chrono::Utc::now -> fixed instant
+//# stubs: http_init -> real tables; chrono::Utc::now / to_rfc2822 -> fixed; alloc::fmt::format -> fixed text (the response text is decided by c13_http_response; here only acceptance and panics matter)
 //# out: longer targets / more header lines (covered by the per-state step lemmas)
 //# cover: complete request answered
 //# cover: non-ASCII target answered
@@ -585,11 +620,14 @@ fn c13_http_request_header() {
 #[kani::unwind(40)]
 #[kani::stub(crate::proto::http::http_init, crate::proto::http::verif_http_init_stub)]
 #[kani::stub(chrono::Utc::now, crate::verif_util::utc_now_stub)]
+#[kani::stub(chrono::DateTime::to_rfc2822, rfc2822_stub)]
+#[kani::stub(alloc::fmt::format, crate::verif_util::fmt_format_stub)]
 fn c01_http_request_warn() {
     http_request(false, log::LevelFilter::Warn)
 }
 
 //# harness: c13_http_response
+//# timeout: 1400
 //# props: C13
 //# tier: quick
 //# encodes: proto::http::repl (response construction: format! of the 401 template)
@@ -601,6 +639,63 @@ fn c01_http_request_warn() {
 #[kani::unwind(460)]
 #[kani::stub(crate::proto::http::http_init, crate::proto::http::verif_http_init_stub)]
 #[kani::stub(chrono::Utc::now, crate::verif_util::utc_now_stub)]
+#[kani::stub(chrono::DateTime::to_rfc2822, rfc2822_stub)]
 fn c13_http_response() {
     http_response()
+}
+
+//# harness: c11_http_stream_cuts_0
+//# props: C11 C13
+//# tier: quick
+//# encodes: proto::http::http_parse incl. the matcher-driven method state on the real HTTP tables
+//# bounds: concrete stream "GET / HTTP/1.1 CRLF CRLF" parsed whole and cut in two at every position (parser level, no response construction)
+//# stubs: http_init -> real tables
+//# cover: complete request at every cut
+#[kani::proof]
+#[kani::unwind(40)]
+#[kani::stub(crate::proto::http::http_init, crate::proto::http::verif_http_init_stub)]
+fn c11_http_stream_cuts_0() {
+    http_stream_cuts(0)
+}
+
+//# harness: c11_http_stream_cuts_1
+//# props: C11 C13
+//# tier: thorough
+//# encodes: proto::http::http_parse incl. the matcher-driven method state on the real HTTP tables
+//# bounds: concrete stream "POST /a HTTP/1.0 LF H: v CRLF CRLF" parsed whole and cut in two at every position (parser level, no response construction)
+//# stubs: http_init -> real tables
+//# cover: complete request at every cut
+#[kani::proof]
+#[kani::unwind(40)]
+#[kani::stub(crate::proto::http::http_init, crate::proto::http::verif_http_init_stub)]
+fn c11_http_stream_cuts_1() {
+    http_stream_cuts(1)
+}
+
+//# harness: c11_http_stream_cuts_2
+//# props: C11 C13
+//# tier: thorough
+//# encodes: proto::http::http_parse incl. the matcher-driven method state on the real HTTP tables
+//# bounds: concrete stream "HEAD /x HTTP/1.1 CRLF 'bad header' CRLF CRLF (malformed: no colon)" parsed whole and cut in two at every position (parser level, no response construction)
+//# stubs: http_init -> real tables
+//# cover: malformed request at every cut
+#[kani::proof]
+#[kani::unwind(40)]
+#[kani::stub(crate::proto::http::http_init, crate::proto::http::verif_http_init_stub)]
+fn c11_http_stream_cuts_2() {
+    http_stream_cuts(2)
+}
+
+//# harness: c11_http_stream_cuts_3
+//# props: C11 C13
+//# tier: quick
+//# encodes: proto::http::http_parse incl. the matcher-driven method state on the real HTTP tables
+//# bounds: concrete stream "GET / HTTP/1.1 CRLF A:b CRLF CR CRLF" parsed whole and cut in two at every position (parser level, no response construction)
+//# stubs: http_init -> real tables
+//# cover: complete request at every cut
+#[kani::proof]
+#[kani::unwind(40)]
+#[kani::stub(crate::proto::http::http_init, crate::proto::http::verif_http_init_stub)]
+fn c11_http_stream_cuts_3() {
+    http_stream_cuts(3)
 }
